@@ -3,6 +3,7 @@ import PqV.Drv.Filter
 import PqV.Drv.Footer
 import PqV.Drv.Fs
 import PqV.Drv.Access
+import PqV.Drv.RowFilter
 /-
   `pqv` — line-protocol driver over the executable definitions of PqV (Spec, Impl, Gen).
   One request per line on stdin, one reply per line on stdout.  Pure per line.
@@ -22,6 +23,7 @@ def handleLine (line : String) : String :=
     | "fs" => handleFs op a
     | "ds" => handleDs op a
     | "access" => handleAccess op a
+    | "rowfilter" => handleRowFilter op a
     | _ => s!"err unknown-stream {stream}"
   | _ => "err bad-request"
 
